@@ -309,7 +309,7 @@ def rerender_stage(chk, b, tier):
         groups = [{"symbol": "", "name": "Refs"}, {"symbol": "branches", "name": "Branches"}, {"symbol": "tags", "name": "Tags"}]
         cases.append({"id": i, "fields": fields, "groups": groups, "group_counts": {"": 3, "branches": 2, "tags": 1}, "resolver_ops": ops,
                       "thresholds": rng.choice([["0", "0.0", "1", "0.00", "-1"], ["1", "0", "1.0", "0.0"], ["30", "0", "0.0"]]),
-                      "names": rng.choice([["full"], ["hash"], ["full"]])})
+                      "names": rng.choice([["full"], ["hash"], ["full", "hash", "full"], ["full", "none", "full"], ["hash", "hash"]])})
     obs, rc, err = R.drv(drv, "output", cases)
     if len(obs) != len(cases):
         chk.inconc("output driver returned %d of %d: %r" % (len(obs), len(cases), err[-200:]))
@@ -319,6 +319,24 @@ def rerender_stage(chk, b, tier):
         if "panic" in o:
             chk.violation("C19/re-rendering/panic", {"panic": o["panic"]})
             continue
+        # every JSON document of every rendering is kept until the whole case is done (a caller that collects several reports
+        # before printing them): each must still be the document it was
+        docs = {}
+        for ri, rdx in enumerate(o["renders"]):
+            for kind in ("json1", "json2"):
+                if kind not in rdx:
+                    continue
+                raw = base64.b64decode(rdx[kind])
+                chk.count()
+                js_, probs_ = P.parse_json(raw + b"\n")
+                probs_ = [p_ for p_ in (probs_ or []) if not p_.startswith("duplicate key")]
+                if js_ is None or probs_:
+                    chk.violation("C19/re-rendering/%s-invalid-after-a-later-rendering" % kind,
+                                  {"rendering_number": ri + 1, "of": cse["names"], "problems": probs_[:2], "head": raw[:120].decode("utf-8", "replace")})
+                docs.setdefault((rdx["names"], kind), []).append(raw)
+        for (st_, kind), lst in docs.items():
+            if any(x != lst[0] for x in lst[1:]):
+                chk.violation("C19/re-rendering/%s-differs-between-renderings-with-equal-parameters" % kind, {"names": st_, "of": cse["names"]})
         rd = o["renders"][0]
         tabs = {}
         for ts in cse["thresholds"]:
